@@ -555,6 +555,13 @@ func srcSide(r *mon.Run) {
 				wf.file = append([]byte(lead), f...)
 				wf.marks = nil
 				files = append(files, wf)
+				// and with CR LF line ends (which the reader tolerates): a fault
+				// position between the CR and the LF of every line
+				cf := sf
+				cf.name += " with CRLF line ends"
+				cf.file = bytes.ReplaceAll(f, []byte("\n"), []byte("\r\n"))
+				cf.marks = nil
+				files = append(files, cf)
 			}
 		}
 	}
